@@ -30,10 +30,10 @@ NCPU = min(16, os.cpu_count() or 1)
 TRACE_MODULE, TRACE_CFG = "MxIOSpecTrace", "MxIOSpecTrace.cfg"
 
 TIERS = {
-    "quick": dict(mc=["MC_MxIOSpec_quick.cfg", "MC_MxIOSpec_quick1.cfg"], mc_workers=6,
+    "quick": dict(mc=[("MC_MxIOSpec_quick.cfg", 6), ("MC_MxIOSpec_quick1.cfg", 6)],
                   random=112, nops=24, mbt=700, mbt_short=3),
-    "thorough": dict(mc=["MC_MxIOSpec_thorough.cfg", "MC_MxIOSpec_thorough1.cfg",
-                         "MC_MxIOSpec_thorough2.cfg"], mc_workers=6,
+    "thorough": dict(mc=[("MC_MxIOSpec_thorough1.cfg", 8), ("MC_MxIOSpec_thorough3.cfg", 4),
+                         ("MC_MxIOSpec_thorough.cfg", 2), ("MC_MxIOSpec_quick.cfg", 2)],
                      random=2000, nops=40, mbt=10000, mbt_short=4),
 }
 
@@ -244,8 +244,9 @@ def run_mc(tier, seed):
     """Design-level model checking (all configurations concurrently) + the histories they emit."""
     conf = TIERS[tier]
 
-    def one(cfgfile):
-        r = tlc.run_tlc("MxIOSpec", cfg=cfgfile, workers=conf["mc_workers"], timeout=3300,
+    def one(item):
+        cfgfile, workers = item
+        r = tlc.run_tlc("MxIOSpec", cfg=cfgfile, workers=workers, timeout=3300,
                         heap="6g")
         hists = {}
         outcomes = collections.Counter()
